@@ -36,7 +36,7 @@ const UNITS: [(&str, &str); 20] = [
     ("http://localhost:8080/api", "url-with-port"),
     ("# type: ignore", "hash-directive"),
 ];
-const POSITIONS: [&str; 9] = ["type", "field", "unit-variant", "tagged-variant", "struct-variant-field", "alias", "tagged-type", "newtype-struct", "unit-enum-type"];
+const POSITIONS: [&str; 12] = ["type", "field", "unit-variant", "tagged-variant", "struct-variant-field", "alias", "tagged-type", "newtype-struct", "unit-enum-type", "decorated-newtype-struct", "decorated-type", "decorated-field"];
 
 #[derive(Clone, Debug)]
 struct Model {
@@ -101,7 +101,15 @@ fn render(m: &Model) -> String {
     s.push_str(&docs_for(7, ""));
     s.push_str("#[typeshare]\npub struct Wrapped(pub String);\n\n");
     s.push_str(&docs_for(8, ""));
-    s.push_str("#[typeshare]\npub enum Level {\n    Low,\n    High,\n}\n");
+    s.push_str("#[typeshare]\npub enum Level {\n    Low,\n    High,\n}\n\n");
+    // items whose decorators select another form of definition in some backend (a Kotlin value class instead of a
+    // typealias, a redacted class with members of its own, extra conformances): the documentation is written there too
+    s.push_str(&docs_for(9, ""));
+    s.push_str("#[typeshare(kotlin = \"JvmInline\", swift = \"Equatable\", redacted)]\npub struct Token(pub String);\n\n");
+    s.push_str(&docs_for(10, ""));
+    s.push_str("#[typeshare(redacted, swift = \"Equatable, Hashable\", kotlin = \"JvmInline\")]\npub struct Guarded {\n");
+    s.push_str(&docs_for(11, "    "));
+    s.push_str("    #[typeshare(typescript(readonly))]\n    pub secret: String,\n}\n");
     s
 }
 
